@@ -55,10 +55,109 @@ func literalsOf(fn *ssa.Function, typ string) []*ssa.Alloc {
 	return out
 }
 
+// helperRegion: fn plus the unexported functions of its package it reaches
+// through static calls (two levels).
+func helperRegion(p *Prog, root *ssa.Function) []*ssa.Function {
+	return c13Region(p, root)
+}
+
+// literalsIn: composite literals of the type in root or its helper region.
+func literalsIn(p *Prog, root *ssa.Function, typ string) []*ssa.Alloc {
+	var out []*ssa.Alloc
+	for _, fn := range helperRegion(p, root) {
+		out = append(out, literalsOf(fn, typ)...)
+	}
+	return out
+}
+
+// fromLiteral: v is the literal itself, or the result of a call to the helper
+// that builds (and returns) it, possibly through a phi or a local copy.
+func fromLiteral(p *Prog, v ssa.Value, al *ssa.Alloc, depth int) bool {
+	if depth > 6 || v == nil {
+		return false
+	}
+	switch x := v.(type) {
+	case *ssa.Alloc:
+		if x == al {
+			return true
+		}
+		for _, ref := range *x.Referrers() {
+			if st, ok := ref.(*ssa.Store); ok && st.Addr == x && fromLiteral(p, st.Val, al, depth+1) {
+				return true
+			}
+		}
+	case *ssa.Phi:
+		for _, e := range x.Edges {
+			if fromLiteral(p, e, al, depth+1) {
+				return true
+			}
+		}
+	case *ssa.UnOp:
+		return fromLiteral(p, x.X, al, depth+1)
+	case *ssa.Extract:
+		return fromLiteral(p, x.Tuple, al, depth+1)
+	case *ssa.Call:
+		return p.body(x.Common().StaticCallee()) == al.Parent()
+	case *ssa.Parameter:
+		// handed in by the (single) caller
+		fn := x.Parent()
+		pi := -1
+		for i, q := range fn.Params {
+			if q == x {
+				pi = i
+			}
+		}
+		for _, ed := range p.CallGraph().in[fn] {
+			cs, ok := ed.Site.(ssa.CallInstruction)
+			if !ok || ed.Kind != "static" || isHarnessPkg(funcPkgPath(ed.Caller)) {
+				continue
+			}
+			ops := callOperands(cs.Common())
+			if pi < len(ops) && fromLiteral(p, ops[pi], al, depth+1) {
+				return true
+			}
+		}
+	}
+	return false
+}
+
 // rootCall: the call (name, result index) that the base pointer of a field
-// load comes from, e.g. x.Header.Version -> the call that produced x.
+// load comes from, e.g. x.Header.Version -> the call that produced x. A value
+// rooted at a parameter is followed to the argument of the function's single
+// in-module call site.
 func rootCall(m *Matcher, v ssa.Value) string {
+	return rootCallD(m, v, 0)
+}
+
+func rootCallD(m *Matcher, v ssa.Value, depth int) string {
 	for i := 0; i < 12; i++ {
+		if pr, ok := v.(*ssa.Parameter); ok && depth < 3 {
+			fn := pr.Parent()
+			pi := -1
+			for k, q := range fn.Params {
+				if q == pr {
+					pi = k
+				}
+			}
+			var site ssa.CallInstruction
+			n := 0
+			for _, ed := range m.P.CallGraph().in[fn] {
+				cs, ok := ed.Site.(ssa.CallInstruction)
+				if !ok || ed.Kind != "static" || isHarnessPkg(funcPkgPath(ed.Caller)) {
+					continue
+				}
+				site = cs
+				n++
+			}
+			if n != 1 {
+				return ""
+			}
+			ops := callOperands(site.Common())
+			if pi >= len(ops) {
+				return ""
+			}
+			return rootCallD(m.P.matcher(site.Parent()), ops[pi], depth+1)
+		}
 		if n, idx, call := m.ResultOf(v); call != nil {
 			return fmt.Sprintf("%s#%d", n, idx)
 		}
@@ -238,9 +337,16 @@ func checkC03(c *Ctx, p *Prog, r *Result) {
 func c03DeviceHeader(p *Prog, r *Result, f *Flow, to2 *ssa.Function) {
 	r.rule("C03.device-header-sources", "the VoucherHeader literal in TO2 sets all six fields: Version, DeviceInfo, CertChainHash from one source (the verified original header), GUID, RvInfo, ManufacturerKey from one other source (SetupDevice); that header is what the HMAC step receives and what fills the returned credential")
 	r.floor("C03.device-header-sources", 3)
-	m := f.matcherFor(to2)
-	lits := literalsOf(to2, "fdo.VoucherHeader")
+	var lits []*ssa.Alloc
+	for _, al := range literalsIn(p, to2, "fdo.VoucherHeader") {
+		// the complete replacement header; partial headers (the SetupDevice
+		// part that is completed later) are not the object of this rule
+		if len(litFields(al)) >= 4 {
+			lits = append(lits, al)
+		}
+	}
 	for _, al := range lits {
+		m := p.matcher(al.Parent())
 		fl := litFields(al)
 		var names []string
 		for n := range fl {
@@ -263,7 +369,7 @@ func c03DeviceHeader(p *Prog, r *Result, f *Flow, to2 *ssa.Function) {
 					continue
 				}
 				for _, arg := range call.Common().Args {
-					if phiHas(arg, al) {
+					if phiHas(arg, al) || fromLiteral(p, arg, al, 0) {
 						cal := p.body(call.Common().StaticCallee())
 						if callsNamed(p, cal, "hash.Hash.Sum") && callsNamed(p, cal, "fdo.Transport.Send") {
 							toHmac = true
@@ -273,19 +379,24 @@ func c03DeviceHeader(p *Prog, r *Result, f *Flow, to2 *ssa.Function) {
 			}
 		}
 		r.table(p, "C03.device-header-sources", "header handed to the HMAC step", p.Pos(al.Pos()), toHmac, "an in-module callee that computes the HMAC receives this literal")
-		for _, cl := range literalsOf(to2, "fdo.DeviceCredential") {
+		for _, cl := range literalsIn(p, to2, "fdo.DeviceCredential") {
 			cf := litFields(cl)
+			m := p.matcher(cl.Parent())
 			ok := true
 			var d []string
 			for _, fld := range []string{"Version", "DeviceInfo", "GUID", "RvInfo"} {
 				v, present := cf[fld]
-				from := present && derivesFromAlloc(v, al)
+				from := present && (derivesFromAlloc(v, al) || fromLiteral(p, fieldBase(v), al, 0))
 				if !from {
 					ok = false
 				}
 				d = append(d, fmt.Sprintf("%s from header=%v", fld, from))
 			}
-			if kh, present := cf["PublicKeyHash"]; !present || !m.Prov(kh).Has("call:hash.Hash.Sum") {
+			if kh, present := cf["PublicKeyHash"]; present {
+				if !m.Prov(kh).Has("call:hash.Hash.Sum") {
+					ok = false
+				}
+			} else if !nestedFieldFrom(m, cl, "PublicKeyHash", "call:hash.Hash.Sum") {
 				ok = false
 			}
 			r.table(p, "C03.device-header-sources", "DeviceCredential literal in fdo.TO2", p.Pos(cl.Pos()), ok, strings.Join(d, "; "))
@@ -294,6 +405,23 @@ func c03DeviceHeader(p *Prog, r *Result, f *Flow, to2 *ssa.Function) {
 	if len(lits) != 1 {
 		r.fail("C03.device-header-sources: expected exactly one VoucherHeader literal in fdo.TO2, found %d", len(lits))
 	}
+}
+
+// fieldBase: the object a field value was loaded from (x in x.f, through loads).
+func fieldBase(v ssa.Value) ssa.Value {
+	for i := 0; i < 8; i++ {
+		switch x := v.(type) {
+		case *ssa.UnOp:
+			v = x.X
+		case *ssa.FieldAddr:
+			return x.X
+		case *ssa.Field:
+			return x.X
+		default:
+			return v
+		}
+	}
+	return v
 }
 
 func phiHas(v ssa.Value, al *ssa.Alloc) bool {
@@ -356,8 +484,8 @@ func c03OwnerHeader(p *Prog, r *Result, f *Flow, sites []ssa.CallInstruction) {
 	r.floor("C03.owner-header-sources", 2)
 	for _, call := range sites {
 		fn := call.Parent()
-		m := f.matcherFor(fn)
-		for _, al := range literalsOf(fn, "fdo.VoucherHeader") {
+		for _, al := range literalsIn(p, fn, "fdo.VoucherHeader") {
+			m := p.matcher(al.Parent())
 			fl := litFields(al)
 			has := func(fld string, items ...string) bool {
 				v, ok := fl[fld]
@@ -366,7 +494,7 @@ func c03OwnerHeader(p *Prog, r *Result, f *Flow, sites []ssa.CallInstruction) {
 				}
 				pv := m.Prov(v)
 				for _, it := range items {
-					if !pv.Has(it) {
+					if !pv.HasX(it) {
 						return false
 					}
 				}
@@ -379,7 +507,8 @@ func c03OwnerHeader(p *Prog, r *Result, f *Flow, sites []ssa.CallInstruction) {
 			excl := !m.Prov(fl["GUID"]).HasLocal(cur) && !m.Prov(fl["RvInfo"]).HasLocal(cur)
 			r.table(p, "C03.owner-header-sources", "VoucherHeader literal in "+p.FuncName(fn), p.Pos(al.Pos()), ok && excl, fmt.Sprintf("%d fields", len(fl)))
 		}
-		for _, al := range literalsOf(fn, "fdo.Voucher") {
+		for _, al := range literalsIn(p, fn, "fdo.Voucher") {
+			m := p.matcher(al.Parent())
 			fl := litFields(al)
 			pv := func(n string) ProvSet {
 				if v, ok := fl[n]; ok {
@@ -387,8 +516,8 @@ func c03OwnerHeader(p *Prog, r *Result, f *Flow, sites []ssa.CallInstruction) {
 				}
 				return ProvSet{}
 			}
-			ok := pv("Hmac").Has("call:fdo.TO2SessionState.ReplacementHmac") && pv("CertChain").Has("call:fdo.VoucherPersistentState.Voucher") && pv("CertChain").Has("field:fdo.Voucher.CertChain")
-			stored := allArgs(call)[3] == ssa.Value(al)
+			ok := pv("Hmac").HasX("call:fdo.TO2SessionState.ReplacementHmac") && pv("CertChain").HasX("call:fdo.VoucherPersistentState.Voucher") && pv("CertChain").HasX("field:fdo.Voucher.CertChain")
+			stored := allArgs(call)[3] == ssa.Value(al) || fromLiteral(p, allArgs(call)[3], al, 0)
 			r.table(p, "C03.owner-header-sources", "Voucher literal in "+p.FuncName(fn), p.Pos(al.Pos()), ok && stored, fmt.Sprintf("Hmac from session, CertChain from current voucher, literal is the ReplaceVoucher argument=%v", stored))
 		}
 	}
@@ -560,4 +689,27 @@ func loadsFrom(v ssa.Value, al *ssa.Alloc) bool {
 		return false
 	}
 	return walk(v, 0)
+}
+
+// nestedFieldFrom: the field of the literal is itself written field by field
+// (an inline nested literal) and one of those stores carries the item.
+func nestedFieldFrom(m *Matcher, lit *ssa.Alloc, field, item string) bool {
+	for _, ref := range *lit.Referrers() {
+		fa, ok := ref.(*ssa.FieldAddr)
+		if !ok || !strings.HasSuffix(fieldName(fa.X.Type(), fa.Field), "."+field) {
+			continue
+		}
+		for _, r2 := range *fa.Referrers() {
+			inner, ok := r2.(*ssa.FieldAddr)
+			if !ok {
+				continue
+			}
+			for _, r3 := range *inner.Referrers() {
+				if st, ok := r3.(*ssa.Store); ok && st.Addr == ssa.Value(inner) && m.Prov(st.Val).Has(item) {
+					return true
+				}
+			}
+		}
+	}
+	return false
 }
